@@ -334,7 +334,13 @@ class ExprBuilder:
                          extra=rv)
             if rv['ck'].startswith('PointerCoercion') or rv['ck'] in ('PtrToPtr', 'Subtype'):
                 return self.operand(rv['op'], proj, d + 1, at)
-            return E('cast', name=rv['ty'], args=[self.operand(rv['op'], (), d + 1, at)], site=site, extra=rv)
+            inner_ = self.operand(rv['op'], (), d + 1, at)
+            if inner_.kind == 'const' and not inner_.proj and rv.get('ck') == 'IntToInt' and \
+                    str(inner_.const.get('v', '')).lstrip('-').isdigit() and not str(inner_.const.get('v')).startswith('-') \
+                    and 'item' not in inner_.const:
+                # an integer literal cast to another integer type is that literal
+                return E('const', const={'ty': rv['ty'], 'v': str(inner_.const['v'])}, site=site)
+            return E('cast', name=rv['ty'], args=[inner_], site=site, extra=rv)
         if k == 'bin':
             if rv['op'].endswith('WithOverflow'):
                 p = [x for x in proj if x != '*']
@@ -348,8 +354,16 @@ class ExprBuilder:
             return E('un', name=rv['op'], args=[self.operand(rv['a'], (), d + 1, at)], site=site)
         if k == 'discr':
             pl = rv['pl']
-            return E('discr', args=[self.place(pl['l'], tuple(proj_key(x) for x in pl['p']), d + 1, at)], site=site,
-                     extra=rv)
+            inner = self.place(pl['l'], tuple(proj_key(x) for x in pl['p']), d + 1, at)
+            # the discriminant of a value that is visibly one field-less variant (`Component::Height as usize`) is a
+            # constant: the variant's discriminant value
+            s_ = inner.strip() if inner.kind in ('call', 'cast') else inner
+            if s_.kind == 'agg' and not s_.args and rv.get('variants'):
+                leaf = s_.name.rsplit('::', 1)[-1]
+                vals = [v for v, n_ in rv['variants'] if n_ == leaf]
+                if len(vals) == 1:
+                    return E('const', const={'ty': 'isize', 'v': str(vals[0])}, site=site)
+            return E('discr', args=[inner], site=site, extra=rv)
         if k == 'agg':
             p = list(proj)
             while p and p[0] == '*':
@@ -1447,6 +1461,20 @@ def adaptor_of_closure(facts, root, owner):
     return None, None
 
 
+def adaptors_of_closure(facts, root, owner):
+    """every (parent body, adaptor call) that receives closure `owner`: a helper spliced in at two call sites brings
+    the same closure body to two adaptor calls of the caller"""
+    out = []
+    for pb in [root] + all_closures(facts, root):
+        if pb is owner:
+            continue
+        for c in pb.find_calls():
+            for cb in closure_args_of_call(facts, pb, c):
+                if cb.npath == owner.npath:
+                    out.append((pb, c))
+    return out
+
+
 def iteration_context(facts, root, owner, bb):
     """[E] collections iterated around block bb of `owner` (root or a closure nested in root): iterators of the natural
     loops containing bb, and - climbing through closures - the receivers of the adaptors (for_each / map / filter ...)
@@ -1878,8 +1906,9 @@ def resolve_const_item(facts, e, depth=3):
         r = ExprBuilder(bs[0]).place(0, ())
         if r.kind == 'unknown' or repr(r) == repr(e):
             return e
-        if e.proj and r.kind == 'call':
-            # `const GATE: Gate = Gate::new(CHI2INV95[4])`: a const constructor is looked through
+        if r.kind == 'call' and (e.proj or norm(r.name.rsplit('::', 1)[0]) in getattr(facts, 'new_newtypes', {})):
+            # `const GATE: Gate = Gate::new(CHI2INV95[4])`: a const constructor is looked through (also when the
+            # wrapper is a new private newtype, which reads as the wrapped value)
             r = expand_calls(facts, r)
         if e.proj:
             # a component of a structured constant (`GATE.0` of `const GATE: Gate = Gate(CHI2INV95[4])`): only a
